@@ -48,6 +48,8 @@ static int thorough = 0, replaying = 0;
 static long seed = 0;
 static long expect_outcomes = 0;
 static double deadline_s = 170.0, exec_timeout_s = 120.0;
+static const char *timeout_key = NULL;
+void vx_timeout_is_violation(const char *key, double seconds) { timeout_key = key; if (seconds > 0) exec_timeout_s = seconds; }
 static const char *outpath = NULL;
 static const char *property = "C??";
 static vx_body_fn BODY;
@@ -321,6 +323,11 @@ static void spawn(int w, pid_t *pids, const char *base) {
   pids[w] = p;
 }
 
+static void replay_alarm(int sig) {
+  (void)sig; static const char a[] = "VX-FAIL ", b[] = " :: the replayed execution does not return within the wall-clock limit\nVX-REPLAY: FAILED\n";
+  if (write(2, a, sizeof a - 1) < 0 || write(2, timeout_key, strlen(timeout_key)) < 0 || write(2, b, sizeof b - 1) < 0) _exit(1);
+  _exit(1);
+}
 static int do_replay(const char *file) {
   replaying = 1; W = 1; me = 0;
   S = calloc(1, sizeof *S);
@@ -335,8 +342,10 @@ static int do_replay(const char *file) {
   }
   fclose(f);
   prefix_len = n; S->len = 0; devs_used = 0; owned = 1;
+  if (timeout_key) { signal(SIGALRM, replay_alarm); alarm((unsigned)(exec_timeout_s + 0.5)); }
   int r = setjmp(JB);
   if (r == 0) BODY();
+  if (timeout_key) alarm(0);
   if (r == 1) fprintf(stderr, "VX-REPLAY: path pruned by vx_require\n");
   fprintf(stderr, "VX-REPLAY: path of %d choices:", S->len);
   for (int i = 0; i < S->len; i++) fprintf(stderr, " %s=%d/%d", S->lab[i], S->choice[i], S->n[i]);
@@ -393,7 +402,14 @@ int vx_main(int argc, char **argv, const char *prop, vx_body_fn body) {
       int sig = WIFSIGNALED(st) ? WTERMSIG(st) : -WEXITSTATUS(st);
       char fn[600]; snprintf(fn, sizeof fn, "%s.w%d.err", base, w);
       int was_timeout = (sig == SIGKILL && lastbeat[w] == -2);
-      if (was_timeout) s->timeouts++;
+      if (was_timeout) {
+        s->timeouts++;
+        if (timeout_key) {   /* termination is the property: the hung path is a violation candidate (confirmed by replay under the same limit) */
+          char msg[200]; snprintf(msg, sizeof msg, "no heartbeat for %g s: the execution does not return (wall clock)", exec_timeout_s);
+          struct viol *v = get_viol(timeout_key);
+          if (v) { v->count++; if (path_less(s->len, s->choice, v->plen, v->pc)) { v->plen = s->len; memcpy(v->pc, s->choice, sizeof(int) * MAXD); memcpy(v->pn, s->n, sizeof(int) * MAXD); memcpy(v->pl, s->lab, sizeof s->lab); snprintf(v->msg, sizeof v->msg, "%s", msg); } }
+        }
+      }
       else {
         char key[KEYLEN], msg[1000]; crash_key(fn, erroff[w], sig, key, sizeof key, msg, sizeof msg);
         struct viol *v = get_viol(key);
